@@ -90,6 +90,7 @@ where
 
         // drop the model here, we don't want to hold the lock for the process() call
         drop(model);
+        verif_point!("core.after_update");
 
         self.command_spawner.spawn(command);
         self.process()
@@ -126,6 +127,7 @@ where
     // ANCHOR: process
     pub(crate) fn process(&self) -> Vec<A::Effect> {
         self.executor.run_all();
+        verif_point!("core.after_run_all");
 
         while let Some(capability_event) = self.capability_events.receive() {
             let mut model = self.model.write().expect("Model RwLock was poisoned.");
@@ -134,11 +136,13 @@ where
                 .update(capability_event, &mut model, &self.capabilities);
 
             drop(model);
+            verif_point!("core.after_capability_update");
 
             self.command_spawner.spawn(command);
             self.executor.run_all();
         }
 
+        verif_point!("core.before_drain");
         self.requests.drain().collect()
     }
     // ANCHOR_END: process
@@ -148,6 +152,25 @@ where
         let model = self.model.read().expect("Model RwLock was poisoned.");
 
         self.app.view(&model)
+    }
+}
+
+#[cfg(feature = "crux_verif")]
+impl<A> Core<A>
+where
+    A: App,
+{
+    /// Read-only snapshot of the executor and channel state, does not run any task
+    pub fn verif_executor_stats(&self) -> crate::verif::ExecutorStats {
+        let (live_tasks, ready_len, spawn_len) = self.executor.verif_stats();
+
+        crate::verif::ExecutorStats {
+            live_tasks,
+            ready_len,
+            spawn_len,
+            requests_len: self.requests.verif_len(),
+            events_len: self.capability_events.verif_len(),
+        }
     }
 }
 
